@@ -18,8 +18,8 @@ import common as C  # noqa: E402
 from floatcmp import f2b, b2f, close  # noqa: E402
 from parallel import driver_parallel  # noqa: E402
 
-GEN = []
-PROPS = ['FinVerif.Props.C02a', 'FinVerif.Props.C02b', 'FinVerif.Props.C02c']
+GEN = ['CurvesF', 'CurvesR']
+PROPS = ['FinVerif.Props.C02a', 'FinVerif.Props.C02b', 'FinVerif.Props.C02c', 'FinVerif.Props.C02d', 'FinVerif.Props.C02e']
 DRIVERS = ['FinVerif.Driver.C02']
 
 RULE = ('uinterp: seeded knot vectors (1..8 knots, first knot 0 or later, dfs from zero rates of both signs) x the three '
@@ -136,7 +136,7 @@ def run(ctx):
         if p not in props:
             ctx.broke(f'proof: {p} is missing')
     drivers_ok = C.lean_stage(ctx, GEN, props, DRIVERS,
-                              extra_files=['FinVerif/Model/C02.lean', 'FinVerif/Spec/C02.lean', 'FinVerif/Lemmas/C02Real.lean', 'FinVerif/Lemmas/C02Interp.lean', 'FinVerif/Lemmas/C02Alg.lean'])
+                              extra_files=['FinVerif/Model/C02.lean', 'FinVerif/Model/C02Ext.lean', 'FinVerif/Spec/C02.lean', 'FinVerif/Lemmas/C02Real.lean', 'FinVerif/Lemmas/C02Interp.lean', 'FinVerif/Lemmas/C02Alg.lean'])
     C.import_financepy()
     import numpy as np
     import warnings
@@ -147,6 +147,7 @@ def run(ctx):
     E.component_conversions()
     E.component_curves()
     E.component_witnesses()
+    E.component_growth()
     ctx.assumptions += [
         'theorems are about the model read over the real numbers; the Float instantiation of the same text is compared '
         f'with the implementation at rtol {RTOL}; rounding is covered only by that tolerance and the oracle tolerances',
@@ -158,9 +159,10 @@ def run(ctx):
         'error there and the implementation\'s outcome is recorded under the known finding, not compared',
     ]
     return C.finish(ctx, 'proof',
-                    'lake build FinVerif.Props.C02a FinVerif.Props.C02b FinVerif.Props.C02c && lake env lean .cache/audit/Audit_C02.lean',
-                    C.TRUSTED_BASE_COMMON + ['Model/C02.lean is hand-written: its tie to the Python is the per-run '
-                                             'correspondence (not a translation)',
+                    'lake build FinVerif.Props.C02a FinVerif.Props.C02b FinVerif.Props.C02c FinVerif.Props.C02d FinVerif.Props.C02e && lake env lean .cache/audit/Audit_C02.lean',
+                    C.TRUSTED_BASE_COMMON + ['Model/C02.lean and Model/C02Ext.lean are hand-written: their tie to the Python is the '
+                                             'per-run correspondence (not a translation); nsRate / nssRate / zeroToDf are in addition '
+                                             'proved equal to the generated text Gen/CurvesR (Props/C02d)',
                                              'Real.exp / Real.log / Real.rpow as the meaning of np.exp / np.log / np.power'],
                     RULE)
 
@@ -393,6 +395,165 @@ class Env:
                     if not close(back, dfv, rtol=1e-9 if days < 5 else 1e-11, atol=0):
                         ctx.violation('df -> zero rate -> df does not return the df',
                                       {'freq': fr.name, 'df': dfv, 't': tt, 'zero': z, 'back': back}, clause='round-trip')
+        cmp_.flush(self.ok)
+
+    # ------------------------------------------------------------------ component 5 (growth round)
+    def component_growth(self):
+        """generated NS / NSS / _zero_to_df kernels (Gen/CurvesF) vs the implementation; zero_rate(freq, dc) of the
+        rate-parameterised classes as a view (intermediate df in the CURVE's frequency); bump as a function of the knots
+        (returned arrays, the object's own arrays after the call, bumped.df_t(t) = df_t(t)*exp(-b t))."""
+        ctx, np = self.ctx, self.np
+        from financepy.market.curves.discount_curve import DiscountCurve
+        from financepy.market.curves.discount_curve_ns import DiscountCurveNS
+        from financepy.market.curves.discount_curve_nss import DiscountCurveNSS
+        from financepy.market.curves.discount_curve_poly import DiscountCurvePoly
+        from financepy.utils.frequency import annual_frequency
+        rng = ctx.rng('growth')
+        scale = 1 if ctx.quick() else 8
+        # ---- (a) generated zero-rate kernels and _zero_to_df
+        cmp_ = Cmp(ctx, 'generated/ns-nss-zero_to_df')
+        v = self.Date(15, 3, 2021)
+        times = [0.0, 1e-13, 1 / 365, 0.25, 1.0, 2.5, 10.0, 30.0, 60.0]
+        for _ in range(20 * scale):
+            b0 = rng.uniform(0.005, 0.08)
+            b = [rng.uniform(-0.03, 0.03) for _ in range(3)]
+            tau = [rng.uniform(0.3, 8.0), rng.uniform(0.3, 12.0)]
+            ns = DiscountCurveNS(v, b0, b[0], b[1], tau[0])
+            nss = DiscountCurveNSS(v, b0, b[0], b[1], b[2], tau[0], tau[1])
+            for t in times + [rng.uniform(0.0, 40.0)]:
+                z = self.call(ns._zero_rate, float(t))
+                # (1 - e^-theta)/theta cancels: one ulp of exp (libm vs NumPy) is 2.2e-16/theta of the loading -- 1e-3 at the time
+                # floor theta = 1e-12/tau, 1e-12 at one day; the absolute tolerance is that conditioning, nothing else
+                th = max(t, 1e-12) / max(tau)
+                at = 4.5e-16 / th * (abs(b[0]) + abs(b[1]) + abs(b[2]))
+                cmp_.add('GNS %s' % ' '.join(map(f2b, [b0, b[0], b[1], tau[0], t])), z if isinstance(z, str) else fl(z),
+                         {'fn': 'DiscountCurveNS._zero_rate (generated)', 'params': [b0, b[0], b[1], tau[0]], 't': t, 'atol': at})
+                z = self.call(nss._zero_rate, float(t))
+                cmp_.add('GNSS %s' % ' '.join(map(f2b, [b0, b[0], b[1], b[2], tau[0], tau[1], t])), z if isinstance(z, str) else fl(z),
+                         {'fn': 'DiscountCurveNSS._zero_rate (generated)', 'params': [b0, b[0], b[1], b[2], tau[0], tau[1]], 't': t, 'atol': at})
+                r = rng.choice([rng.uniform(-0.03, 0.15), 0.0])
+                for fr in self.F:
+                    fin = annual_frequency(fr)
+                    fin = 0.0 if fin is None else float(fin)
+                    d = self.call(ns._zero_to_df, v, r, float(t), fr, self.DCT.ACT_365F)
+                    cmp_.add(f'GZ2D {fr.value} {f2b(r)} {f2b(t)} {f2b(fin)}', d if isinstance(d, str) else fl(d),
+                             {'fn': '_zero_to_df (generated)', 'freq': fr.name, 'rate': r, 't': t})
+        cmp_.flush(self.ok)
+        # ---- (b) zero_rate(freq, dc) of NS / NSS / Poly: a view of the curve's own df
+        cmp_ = Cmp(ctx, 'views/zero_rate-param-classes')
+        for c_i in range(18 * scale):
+            fc = self.z2d_freqs[c_i % len(self.z2d_freqs)]
+            dcc = rng.choice(self.dc_ok)
+            kind = ['NS', 'NSS', 'Poly'][c_i % 3]
+            d_, m_, y_ = 1 + rng.randint(0, 27), rng.randint(1, 12), rng.randint(1998, 2036)
+            v = self.Date(d_, m_, y_)
+            b0 = rng.uniform(0.005, 0.08)
+            if kind == 'NS':
+                par = [b0, rng.uniform(-0.03, 0.03), rng.uniform(-0.03, 0.03), rng.uniform(0.3, 8.0)]
+                curve = self.call(DiscountCurveNS, v, *par, fc, dcc)
+            elif kind == 'NSS':
+                par = [b0] + [rng.uniform(-0.03, 0.03) for _ in range(3)] + [rng.uniform(0.3, 8.0), rng.uniform(0.3, 12.0)]
+                curve = self.call(DiscountCurveNSS, v, *par, fc, dcc)
+            else:
+                par = [b0, rng.uniform(-0.001, 0.002), rng.uniform(-2e-5, 2e-5)]
+                curve = self.call(DiscountCurvePoly, v, par, fc, dcc)
+            desc = {'class': 'DiscountCurve' + kind, 'valuation': self.dstr(v), 'params': par, 'freq': fc.name, 'dc': dcc.name}
+            if isinstance(curve, str):
+                ctx.violation(f'{kind} construction raised', desc | {'error': curve}, clause='construction')
+                continue
+            for _q in range(3):
+                q = v.add_days(rng.choice([1, 30, 365, rng.randint(2, 15000)]))
+                tc = self.yf(dcc, v, q)
+                rate = self.call(curve._zero_rate, float(tc))
+                d = self.call(curve.df, q)
+                if isinstance(rate, str) or isinstance(d, str):
+                    ctx.violation('df / _zero_rate raised', desc | {'query': self.dstr(q), 'rate': str(rate), 'df': str(d)}, clause='construction')
+                    continue
+                rate, d = fl(rate), fl(d)
+                if fc == self.F.SIMPLE and 1.0 + rate * max(tc, 1e-12) <= 0:
+                    self.tick('out-of-domain/simple-rate-with-1+rt<=0')
+                    continue
+                for fa in self.F:
+                    dca = rng.choice(self.dc_ok)
+                    ta = self.yf(dca, v, q)
+                    z = self.call(curve.zero_rate, q, fa, dca)
+                    case = desc | {'query': self.dstr(q), 'view_freq': fa.name, 'view_dc': dca.name, 'df': d, 't_curve': tc, 't_view': ta}
+                    if isinstance(z, str):
+                        ctx.violation('zero_rate raised', case | {'error': z}, clause='zero-rate-raises')
+                        continue
+                    z = fl(z)
+                    cmp_.add(f'ZRV {fc.value} {fa.value} {f2b(rate)} {f2b(tc)} {f2b(ta)}', z,
+                             case | {'view': 'zero_rate', 'zero_rate': z, 'atol': 1e-13 / max(ta, 1e-9)})
+                    # theorem zero_rate_view_roundtrip: the reported rate converts back (same frequency, same time) to the curve's df
+                    back = self.spec_z2d(fa.value, z, ta)
+                    if ta >= 1e-6 and 1e-8 < d < 1e4 and not close(back, d, rtol=1e-9 if ta < 0.02 else OTOL, atol=0):
+                        ctx.violation('zero_rate(freq, dc) of a rate-parameterised curve does not convert back to the curve\'s df '
+                                      '(the intermediate df must use the curve\'s own frequency)', case | {'zero_rate': z, 'back': back},
+                                      clause='zero-rate-view-curve-frequency')
+                    self.tick(f'zero_rate-view/{fc.name}->{fa.name}')
+        cmp_.flush(self.ok)
+        # ---- (c) bump as a function of the knots
+        cmp_ = Cmp(ctx, 'DiscountCurve.bump')
+        its = [self.IT.FLAT_FWD_RATES, self.IT.LINEAR_ZERO_RATES, self.IT.LINEAR_FWD_RATES, self.IT.FLAT_FWD_RATES]
+        nb = 0
+        for c_i in range(24 * scale):
+            it = its[c_i % len(its)]
+            v, pill, on_val = self.gen_dates(rng)
+            if on_val and len(pill) == 1:
+                continue        # one-knot curve: C02/single-knot-curve, judged elsewhere
+            ts = [(p.excel_dt - v.excel_dt) / 365.0 for p in pill]
+            lnd_, _ = self.gen_lndf(rng, ts)
+            dfs = [math.exp(-x) for x in lnd_]
+            if on_val:
+                dfs[0] = 1.0
+            bsz = rng.choice([0.0001, -0.0001, 0.0123, rng.uniform(-0.02, 0.05)])
+            desc = {'class': 'DiscountCurve', 'valuation': self.dstr(v), 'pillars': [self.dstr(p) for p in pill], 'dfs': dfs,
+                    'interp': it.name, 'bump': bsz}
+            curve = self.call(DiscountCurve, v, pill, np.array(dfs), it)
+            if isinstance(curve, str):
+                ctx.violation('DiscountCurve construction raised', desc | {'error': curve}, clause='construction')
+                continue
+            t0, d0 = [float(x) for x in curve._times], [float(x) for x in curve._dfs]
+            qts = [0.0, ts[-1] * 0.37, ts[-1], ts[-1] + 1.0, ts[-1] + 25.0] + [0.5 * (a + b_) for a, b_ in zip(t0[:-1], t0[1:])]
+            before = [self.call(curve.df_t, float(t)) for t in qts]
+            bc = self.call(curve.bump, float(bsz))
+            if isinstance(bc, str):
+                ctx.violation('DiscountCurve.bump raised', desc | {'error': bc}, finding='C02/bump-raises' if bc == 'E:FinError' else None,
+                              clause='bump')
+                continue
+            nb += 1
+            t1, d1 = [float(x) for x in curve._times], [float(x) for x in curve._dfs]
+            # the object's own arrays: bit-for-bit what they were (theorem bump_leaves_original)
+            if t1 != t0 or d1 != d0:
+                ctx.violation('curve.bump changed the arrays of the curve it was called on', desc | {'times_before': t0, 'times_after': t1,
+                              'dfs_before': d0, 'dfs_after': d1}, clause='bump-leaves-original')
+            arrs = [t1, d1, [float(x) for x in bc._times], [float(x) for x in bc._dfs]]
+            head = f'{f2b(bsz)} {1 if on_val else 0} {len(ts)} ' + ' '.join(map(f2b, ts)) + ' ' + ' '.join(map(f2b, dfs))
+            for w, arr in enumerate(arrs):
+                for k, x in enumerate(arr):
+                    cmp_.add(f'BUMP {w} {k} {head}', x, desc | {'array': ['self._times', 'self._dfs', 'bumped._times', 'bumped._dfs'][w], 'index': k})
+                cmp_.add(f'BUMP {w} {len(arr)} {head}', 'E:IndexError', desc | {'array': w, 'index': 'len'})
+            # knots of the returned curve (theorem bump_knots_after_val / bump_values)
+            for k, (tk, dk) in enumerate(zip(t0, d0)):
+                want = dk * math.exp(-bsz * tk)
+                if k >= len(arrs[3]) or arrs[2][k] != tk or not close(arrs[3][k], want, rtol=1e-14, atol=0):
+                    ctx.violation('bumped knot is not df_k * exp(-bump * t_k) at the same knot time', desc | {'knot': k, 't': tk, 'df': dk,
+                                  'bumped_times': arrs[2], 'bumped_dfs': arrs[3], 'expected': want}, clause='bump-knots')
+            # df view (theorems kFlat_bump / kLinZero_bump): every time, interpolation and extrapolation
+            if it in (self.IT.FLAT_FWD_RATES, self.IT.LINEAR_ZERO_RATES):
+                for t, x0 in zip(qts, before):
+                    x1 = self.call(bc.df_t, float(t))
+                    if isinstance(x0, str) or isinstance(x1, str):
+                        if x0 != x1:
+                            ctx.violation('bumped.df_t raised where df_t did not (or conversely)', desc | {'t': t, 'df_t': str(x0), 'bumped': str(x1)},
+                                          clause='bump-df')
+                        continue
+                    x0, x1 = fl(x0), fl(x1)
+                    if not close(x1, x0 * math.exp(-bsz * t), rtol=1e-11, atol=0):
+                        ctx.violation('bumped.df_t(t) differs from df_t(t) * exp(-bump * t)', desc | {'t': t, 'df_t': x0, 'bumped_df_t': x1,
+                                      'expected': x0 * math.exp(-bsz * t)}, clause='bump-df')
+                ctx.count('oracle/bump-df', len(qts))
+        ctx.count('oracle/bump-knots', nb)
         cmp_.flush(self.ok)
 
     # ------------------------------------------------------------------ component 3: curve classes
